@@ -309,6 +309,11 @@ def handwritten():
         ("m0 = { FAIL() } { NONE() } { CUSTOM(\"q\") } { IDENT($x) } { IDENT() } { ARGS(1, \"s\", $x, x: 1) }\n", "%s=c%s" % (hx("x"), hx("cv"))),
         ("m0 = { \"\\u0041\\\\\" } { \"\\uD800\" } {\"é\"}\n", "."),
         ("m0 = { $x ->\n [a] A\n [b] B\n }\n", "."),
+        # LONG output (more than 1 KiB, 2 KiB, 4 KiB) with 60-99 placeables: whatever buffering the string entry point
+        # does, the placeable count of a call is counted once
+        ("m0 = " + "some text here { $x } " * 90 + "\nm1 = " + "word { m3 } " * 70 + "\nm2 = " + "a much longer piece of text between placeables { $x }{ $y } " * 49
+         + "\nm3 = sixteen-byte-msg\nm4 = " + "x" * 2000 + "{ $x }" * 99 + "\nm5 = " + "{ $x } and { $y } " * 50 + "{ $x }\n",
+         "%s=s%s&%s=i7" % (hx("x"), hx("value"), hx("y"))),
         # MULTI-LINE values (one text element per line): a transform is applied per text element, by both entry points
         ("m0 =\n    first line\n    second line\n    third\nm1 =\n    a\n    b { $x } c\n    d\nm2 = one\n    .a =\n        x\n        y\n"
          "-t0 =\n    t1\n    t2\nm3 = { -t0 }|{ m0 }\nm4 = { $x ->\n   *[o]\n      v1\n      v2\n }\n", "%s=s%s" % (hx("x"), hx("X"))),
